@@ -267,16 +267,19 @@ func (e *Engine) VerifyFunc(t unitTarget) *Unit {
 		}
 	}
 	nret := 0
+	var exits []*State
 	for _, r := range c.returns {
 		for _, f := range c.runDefers(r) {
 			if f.dead {
 				continue
 			}
 			nret++
+			exits = append(exits, f)
 			c.checkExit(f, sig, body.Rbrace)
 		}
 	}
 	u.nreturns = nret
+	u.exitReach(exits, body.Rbrace)
 	// stale contract pieces
 	if t.spec != nil {
 		for k, ls := range t.spec.Loops {
@@ -719,4 +722,26 @@ func (c *ExecCtx) frameFormula(h string, cur *Term, allowed map[string][]*Term) 
 		cond = append(cond, Ne(x, r))
 	}
 	return Forall([]*Term{x}, Imp(And(cond...), Eq(Select(cur, x), Select(init, x))), []*Term{Select(cur, x)})
+}
+
+
+// exitReach: vacuity canary. The assumptions of at least one exit of the unit
+// must be satisfiable; otherwise every postcondition was proved vacuously
+// (e.g. by a contradictory assumed contract).
+func (u *Unit) exitReach(exits []*State, pos token.Pos) {
+	if len(exits) == 0 || u.quiet > 0 {
+		return
+	}
+	base := commonPrefix(exits)
+	var alts []*Term
+	for _, e := range exits {
+		alts = append(alts, And(e.assume[base:]...))
+	}
+	as := append([]*Term(nil), exits[0].assume[:base]...)
+	as = append(as, Or(alts...))
+	u.kindN["vacuity"]++
+	u.obls = append(u.obls, &Obligation{
+		Name: fmt.Sprintf("%s#vacuity.%d", u.name, u.kindN["vacuity"]), Unit: u.name, Kind: "vacuity", Pos: u.pos(pos),
+		Desc: "some exit of the function is reachable (assumptions are consistent)", Assumes: as, Goal: False,
+	})
 }
